@@ -292,6 +292,24 @@ func genMaterial() (*material, error) {
 		"ca-garbage.pem":   junk,
 		"ca-mixed.pem":     mixed,
 	}
+	// sweep G: CA bundles of every shape and order (see bundleNames)
+	tok := map[string][]byte{
+		"A": pemCert(m.caCert["A"]),
+		"B": pemCert(m.caCert["B"]),
+		"T": []byte("# explanatory text between blocks \xc3\xa9\nsubject=/CN=c18 text, not PEM\n\n"),
+		"P": pem.EncodeToMemory(&pem.Block{Type: "EC PARAMETERS", Bytes: []byte{0x06, 0x08, 0x2a, 0x86, 0x48, 0xce, 0x3d, 0x03, 0x01, 0x07}}),
+		"L": otherBlock,
+		"K": ec(m.keys["E2"]),
+		"H": pem.EncodeToMemory(&pem.Block{Type: "CERTIFICATE", Headers: map[string]string{"Comment": "c18 block with headers"}, Bytes: m.caCert["B"].Raw}),
+		"Z": badBlock,
+	}
+	for _, n := range bundleNames() {
+		var b []byte
+		for _, t := range strings.Split(strings.TrimPrefix(n, "bundle:"), ",") {
+			b = append(b, tok[t]...)
+		}
+		files["ca-"+n+".pem"] = b
+	}
 	m.content = map[string][]byte{}
 	for n, b := range files {
 		if err := w(n, b); err != nil {
@@ -305,6 +323,34 @@ func genMaterial() (*material, error) {
 		}
 	}
 	return m, nil
+}
+
+// bundleTokens is the block alphabet of the generated CA bundles: A, B = plain CERTIFICATE
+// blocks of two authorities; T = text that is not PEM; P = EC PARAMETERS block; L = X509 CRL
+// block; K = EC PRIVATE KEY block; H = CERTIFICATE block with PEM headers (holding B);
+// Z = CERTIFICATE block whose content is no certificate.
+var bundleTokens = []string{"A", "B", "T", "P", "L", "K", "H", "Z"}
+
+const bundleMaxBlocks = 3
+
+// bundleNames: every sequence (with repetition) of 1..bundleMaxBlocks tokens, "bundle:A,P,B".
+func bundleNames() (out []string) {
+	level := []string{""}
+	for d := 0; d < bundleMaxBlocks; d++ {
+		var next []string
+		for _, p := range level {
+			for _, t := range bundleTokens {
+				n := t
+				if p != "" {
+					n = p + "," + t
+				}
+				next = append(next, n)
+				out = append(out, "bundle:"+n)
+			}
+		}
+		level = next
+	}
+	return out
 }
 
 func (m *material) cleanup() {
